@@ -145,6 +145,21 @@ func init() {
 		}
 		return L(I32(n), I(gn), I32(p), I(gp))
 	}
+	Exec["bitmap.Next/Select32"] = func(a []V) string {
+		bm := c13Unrle(a[0])
+		l := c13IterNext(bm, 0, int32(64*len(bm)))
+		sidx := bitmap.IndexSelect32(bm)
+		sidx2, ridx := bitmap.IndexSelect32R64(bm)
+		s1 := make([]string, len(l))
+		s2 := make([]string, len(l))
+		for k := range l {
+			x, y := bitmap.Select32(bm, sidx, int32(k))
+			s1[k] = L(I32(x), I32(y))
+			x, y = bitmap.Select32R64(bm, sidx2, ridx, int32(k))
+			s2[k] = L(I32(x), I32(y))
+		}
+		return L(I32s(l), L(s1...), L(s2...))
+	}
 	// diagnostic only (generator "C13x"): any int32 i, end
 	Exec["bitmap.NextOne/any"] = Exec["bitmap.NextOne/sparse"]
 	Exec["bitmap.PrevOne/any"] = Exec["bitmap.PrevOne/sparse"]
@@ -610,8 +625,13 @@ func genC13w(g *Gen) {
 			g.Stat("toarray")
 			g.Do("bitmap.Next/ToArray", L(c13Rle(bm)), fmt.Sprintf("TA/nw%d/c%d", len(bm), bits.Len(uint(popcount(bm)))))
 		}
+		if k%5 == 1 {
+			g.Stat("select")
+			g.Do("bitmap.Next/Select32", L(c13Rle(bm)), fmt.Sprintf("SE/nw%d/c%d", len(bm), bits.Len(uint(popcount(bm)))))
+		}
 	}
 	g.Do("bitmap.Next/ToArray", L(L()), "")
+	g.Do("bitmap.Next/Select32", L(L()), "")
 	for k, ns := 0, g.N(6, 60); k < ns; k++ {
 		bm, marks := c13wBitmap(g, g.R.Range(1, 3), func(int) int { return g.R.Range(100, 1200) }, g.R.Intn(3))
 		i, e := c13wRange(g, bm, marks, nil)
@@ -619,6 +639,8 @@ func genC13w(g *Gen) {
 			i, e = 0, 64*len(bm)
 		}
 		iter(bm, i, e, "iter-sparse")
+		g.Stat("select")
+		g.Do("bitmap.Next/Select32", L(c13Rle(bm)), fmt.Sprintf("SE/sparse/c%d", bits.Len(uint(popcount(bm)))))
 		if len(bm) <= 700 { // the model of ToArray reads a word per BIT
 			g.Stat("toarray")
 			g.Do("bitmap.Next/ToArray", L(c13Rle(bm)), fmt.Sprintf("TA/sparse/c%d", bits.Len(uint(popcount(bm)))))
